@@ -293,28 +293,40 @@ Definition tg_run (win : list (list tok)) (specs : list tgspec) (fuel : nat) : n
   run_canon imap tgspec t_ins tg_fire_spec win specs fuel (tg_init specs).
 
 (* ---------------------------------------------------------------- executor closing logic *)
-(* State: _closed, and the number of steps whose `terminated` flag is still False (only that matters here).
-   _closing is never assigned an Event anywhere in the code, so the `_closing is not None` arms are dead. *)
-Record xstate := mkX { closed : bool; unterminated : nat }.
+(* State: _closed, and for every step its `terminated` flag and its `status`.
+   _closing is never assigned an Event anywhere in the code, so the `_closing is not None` arms are dead.
+   NOT modelled (named in the notes): the branch of _wait_outputs that re-opens the executor when a workflow output
+   port appears that has neither a task nor a termination (executor.py "Check if new output ports have been
+   created": only reachable when ports are added while running, i.e. by recovery), and the path of run() for a
+   workflow without output ports (it awaits the gather of self.executions). *)
+Record xstep := mkXS { xs_term : bool; xs_status : status }.
+Record xstate := mkX { closed : bool; xsteps : list xstep }.
 
-(* StreamFlowExecutor.close: terminate(CANCELLED) on every step that is not terminated, then _closed = True *)
-Definition x_close (x : xstate) : xstate := if closed x then x else mkX true 0.
+Definition xs_bad (s : xstep) : bool := match xs_status s with FAILED | CANCELLED => true | _ => false end.
+Definition unterminated (x : xstate) : nat := length (filter (fun s => negb (xs_term s)) (xsteps x)).
+
+(* StreamFlowExecutor.close: terminate(CANCELLED) on every step that is not terminated (BaseStep.terminate sets
+   terminated and status), then _closed = True *)
+Definition x_close (x : xstate) : xstate :=
+  if closed x then x
+  else mkX true (map (fun s => if xs_term s then s else mkXS true CANCELLED) (xsteps x)).
 (* StreamFlowExecutor._cancel, as repaired by the fix: commit 7a62372 (cancel output tasks, then close()).
    The pre-fix code was [x_cancel_prefix] below: it only set _closed. *)
 Definition x_cancel (x : xstate) : xstate := if closed x then x else x_close x.
-Definition x_cancel_prefix (x : xstate) : xstate := if closed x then x else mkX true (unterminated x).
+Definition x_cancel_prefix (x : xstate) : xstate := if closed x then x else mkX true (xsteps x).
 
 Inductive xevent := XCancel | XClose.
 Definition x_step (cancel : xstate -> xstate) (x : xstate) (e : xevent) : xstate :=
   match e with XCancel => cancel x | XClose => x_close x end.
 
-(* What run() does once an output port delivered its TerminationToken(s).
-   failed_out = that token was FAILED/CANCELLED (-> _cancel); otherwise it was the last port (-> close()).
-   Afterwards: the loop ends (closed), any FAILED/CANCELLED step status raises, the handler calls close(). *)
-Definition x_run_tail (cancel : xstate -> xstate) (failed_out any_bad_status : bool) (x : xstate) : bool * xstate :=
+(* What run() does once the output loop ends.
+   failed_out = an output port delivered a FAILED/CANCELLED TerminationToken (-> _cancel); otherwise the last output
+   port terminated normally (-> close()).  Then: `for step in steps: if step.status in [FAILED, CANCELLED]: raise`,
+   read off the STATE; the exception handler calls close() again.  Result: (raised, final state). *)
+Definition x_run_tail (cancel : xstate -> xstate) (failed_out : bool) (x : xstate) : bool * xstate :=
   let x1 := if failed_out then cancel x else x_close x in
-  if any_bad_status then (true, x_close x1) else (false, x1).
+  if existsb xs_bad (xsteps x1) then (true, x_close x1) else (false, x1).
 
-(* The normal path: the last output port terminated, close() runs with u steps still unterminated; each of them
-   gets terminate(CANCELLED), i.e. status CANCELLED, and the status check after the loop then raises. *)
-Definition x_normal_path_raises (u : nat) (bad_before : bool) : bool := bad_before || negb (Nat.eqb u 0).
+(* the executor's view of a network state: terminated = the step has emitted its termination tokens *)
+Definition xs_of_sterm (t : option status) : xstep :=
+  match t with Some s => mkXS true s | None => mkXS false WAITING end.
